@@ -24,6 +24,7 @@ func SelfTest() []string {
 		sets   map[string]*Set
 		maps   map[string]map[string]string
 		stubs  []string
+		unload map[string]string
 		entry  string
 		pkt    Packet
 		// expectations
@@ -107,6 +108,16 @@ func SelfTest() []string {
 			chains: map[string][]string{"c": {`-A c -m string --string foo --jump DROP`}}, pkt: tcp("10.0.0.1", "10.0.0.2", 1, 1)},
 		{name: "ipt undefined set is a gap", kind: Iptables, ipv: 4, entry: "c", errKind: "gap",
 			chains: map[string][]string{"c": {`-A c -m set --match-set nosuch src --jump DROP`}}, pkt: tcp("10.0.0.1", "10.0.0.2", 1, 1)},
+		{name: "ipt one-dimensional match on an ip,port set never matches (ip_set_test dim check)", kind: Iptables, ipv: 4, entry: "c", sets: sets,
+			chains: map[string][]string{"c": {`-A c -m set --match-set cali40np dst --jump DROP`, `-A c -m set ! --match-set cali40np dst --jump ACCEPT`}},
+			pkt:    tcp("10.0.0.1", "10.0.0.2", 1, 80), verdict: VerdictAccept},
+		{name: "ipt extra dimension on a net set is ignored", kind: Iptables, ipv: 4, entry: "c", sets: sets,
+			chains: map[string][]string{"c": {`-A c -m set --match-set cali40s1 src,src --jump DROP`}},
+			pkt:    tcp("10.0.0.2", "10.0.0.2", 1, 80), verdict: VerdictDrop},
+		{name: "ipt set of the other family fails the load", kind: Iptables, ipv: 4, entry: "c", sets: sets, errKind: "invalid",
+			unload: map[string]string{"cali60np": "IPv6 set"},
+			chains: map[string][]string{"c": {`-A c --jump RETURN`, `-A c -m set --match-set cali60np dst,dst --jump DROP`}},
+			pkt:    tcp("10.0.0.1", "10.0.0.2", 1, 80)},
 		{name: "ipt jump to undefined chain", kind: Iptables, ipv: 4, entry: "c", errKind: "invalid",
 			chains: map[string][]string{"c": {`-A c --jump nosuch`}}, pkt: tcp("10.0.0.1", "10.0.0.2", 1, 1)},
 
@@ -149,6 +160,11 @@ func SelfTest() []string {
 			pkt:    tcp("10.0.0.1", "10.0.0.2", 1, 1), verdict: VerdictReject, logs: 1},
 		{name: "nft 'icmp type T code C' is a syntax error", kind: NFT, ipv: 4, entry: "c", errKind: "invalid",
 			chains: map[string][]string{"c": {`meta l4proto icmp icmp type 8 code 0 counter drop`}}, pkt: icmp(8, 0)},
+		{name: "nft plain lookup in a concatenated set is a type mismatch", kind: NFT, ipv: 4, entry: "c", sets: sets, errKind: "invalid",
+			chains: map[string][]string{"c": {`ip daddr @cali40np counter drop`}}, pkt: tcp("10.0.0.1", "10.0.0.2", 1, 80)},
+		{name: "nft set of the other table fails the load", kind: NFT, ipv: 4, entry: "c", sets: sets, errKind: "invalid",
+			unload: map[string]string{"cali60np": "IPv6 set"},
+			chains: map[string][]string{"c": {`counter return`, `ip daddr . meta l4proto . th dport @cali60np counter drop`}}, pkt: tcp("10.0.0.1", "10.0.0.2", 1, 80)},
 		{name: "nft unknown token is a gap", kind: NFT, ipv: 4, entry: "c", errKind: "gap",
 			chains: map[string][]string{"c": {`tcp flags syn counter drop`}}, pkt: tcp("10.0.0.1", "10.0.0.2", 1, 1)},
 		{name: "nft ip6 expression in ip table", kind: NFT, ipv: 4, entry: "c", errKind: "invalid",
@@ -173,6 +189,9 @@ func SelfTest() []string {
 		}
 		if c.maps != nil {
 			rs.Maps = c.maps
+		}
+		if c.unload != nil {
+			rs.Unloadable = c.unload
 		}
 		p := c.pkt
 		res, err := rs.Run(c.entry, &p)
